@@ -102,6 +102,7 @@ class PeerConn:
         elif self.kind == "reset":
             self.reader.set_exception(ConnectionResetError("peer reset"))
             self.writer.fail = ConnectionResetError("peer reset")
+            self.writer.closed_exc = ConnectionResetError("peer reset")  # asyncio: wait_closed() of a reset connection raises
         # silence: nothing
 
     def on_write(self, b: bytes) -> None:
